@@ -216,3 +216,25 @@ pub fn stream_xsalsa20(len: usize, n: &[u8; 24], k: &[u8; 32]) -> Vec<u8> {
     unsafe { ffi::crypto_stream_xsalsa20(c.as_mut_ptr(), len as u64, n.as_ptr(), k.as_ptr()); }
     c
 }
+
+pub fn kx_client(cpk: &[u8; 32], csk: &[u8; 32], spk: &[u8; 32]) -> Option<([u8; 32], [u8; 32])> {
+    let (mut rx, mut tx) = ([0u8; 32], [0u8; 32]);
+    let r = unsafe { ffi::crypto_kx_client_session_keys(rx.as_mut_ptr(), tx.as_mut_ptr(), cpk.as_ptr(), csk.as_ptr(), spk.as_ptr()) };
+    if r == 0 { Some((rx, tx)) } else { None }
+}
+pub fn kx_server(spk: &[u8; 32], ssk: &[u8; 32], cpk: &[u8; 32]) -> Option<([u8; 32], [u8; 32])> {
+    let (mut rx, mut tx) = ([0u8; 32], [0u8; 32]);
+    let r = unsafe { ffi::crypto_kx_server_session_keys(rx.as_mut_ptr(), tx.as_mut_ptr(), spk.as_ptr(), ssk.as_ptr(), cpk.as_ptr()) };
+    if r == 0 { Some((rx, tx)) } else { None }
+}
+pub fn kx_seed_keypair(seed: &[u8; 32]) -> ([u8; 32], [u8; 32]) {
+    let (mut pk, mut sk) = ([0u8; 32], [0u8; 32]);
+    unsafe { ffi::crypto_kx_seed_keypair(pk.as_mut_ptr(), sk.as_mut_ptr(), seed.as_ptr()); }
+    (pk, sk)
+}
+/// libsodium writes q even when it returns -1 (all-zero shared secret): (q, accepted)
+pub fn scalarmult_raw(n: &[u8; 32], p: &[u8; 32]) -> ([u8; 32], bool) {
+    let mut q = [0u8; 32];
+    let r = unsafe { ffi::crypto_scalarmult(q.as_mut_ptr(), n.as_ptr(), p.as_ptr()) };
+    (q, r == 0)
+}
